@@ -116,8 +116,44 @@ def run(prog: Program, res: Result, tier: str) -> None:
         want = {"a['count'] == 0": f"b['{fld}']", "b['count'] == 0": f"a['{fld}']"}
         both = norm(w2[2]) in (f"{comb}(a['{fld}'], b['{fld}'])", f"{comb}(b['{fld}'], a['{fld}'])")
         return first == want and both
+    def guarded_extreme_cases(txt: str | None, fld: str, comb: str) -> bool:
+        """The same requirement decided case by case: whatever nest of np.where over `a.count == 0` / `!= 0` / `b.count ...` is
+        written, for (a empty, b empty) in the four combinations the selected value must be b.X / a.X for one empty side, comb(a.X, b.X)
+        for none, and either stored value for both."""
+        if txt is None:
+            return False
+        try:
+            e0 = ast.parse(txt, mode="eval").body
+        except SyntaxError:
+            return False
+
+        def truth(t, a_empty, b_empty):
+            if isinstance(t, ast.UnaryOp) and isinstance(t.op, (ast.Not, ast.Invert)):
+                v = truth(t.operand, a_empty, b_empty)
+                return None if v is None else (not v)
+            if isinstance(t, ast.Compare) and len(t.ops) == 1 and isinstance(t.ops[0], (ast.Eq, ast.NotEq)):
+                l_, r_ = norm(t.left), norm(t.comparators[0])
+                if l_ == "0":
+                    l_, r_ = r_, l_
+                if r_ != "0" or l_ not in ("a['count']", "b['count']"):
+                    return None
+                empty = a_empty if l_.startswith("a") else b_empty
+                return empty if isinstance(t.ops[0], ast.Eq) else (not empty)
+            return None
+
+        def pick(e_, a_empty, b_empty):
+            if isinstance(e_, ast.Call) and dotted(e_.func) == "np.where" and len(e_.args) == 3:
+                v = truth(e_.args[0], a_empty, b_empty)
+                if v is None:
+                    return None
+                return pick(e_.args[1] if v else e_.args[2], a_empty, b_empty)
+            return norm(e_)
+        both = {f"{comb}(a['{fld}'], b['{fld}'])", f"{comb}(b['{fld}'], a['{fld}'])"}
+        return pick(e0, True, False) == f"b['{fld}']" and pick(e0, False, True) == f"a['{fld}']" and pick(e0, False, False) in both and \
+            pick(e0, True, True) in {f"a['{fld}']", f"b['{fld}']"} | both
     plain = other.get("max") == "np.maximum(a['max'], b['max'])" and other.get("min") == "np.minimum(a['min'], b['min'])"
-    if guarded_extreme(other.get("max"), "max", "np.maximum") and guarded_extreme(other.get("min"), "min", "np.minimum"):
+    if (guarded_extreme(other.get("max"), "max", "np.maximum") and guarded_extreme(other.get("min"), "min", "np.minimum")) or \
+            (guarded_extreme_cases(other.get("max"), "max", "np.maximum") and guarded_extreme_cases(other.get("min"), "min", "np.minimum")):
         res.ok("R3", mrg, mrg.node, "merge takes the elementwise maximum of maxima and minimum of minima, and an operand with count 0 contributes nothing "
                "(the empty accumulator is the identity for the extremes too)", construct="minmax", key=key)
     elif plain:
